@@ -21,7 +21,7 @@ NOT_DECIDED = ("positivity/minimality of intersection distances, sense = sign of
 LEVEL_NOTE = ("Assumption: the stored rotation matrix is orthonormal (checked by the class only "
               "with a debug assertion). SignedPermutation (bit-packed) is outside the vocabulary.")
 
-TECHNIQUE = ('affine abstract interpretation (words over R, R^T with R^T R = I) of transform_up/down and rotate_up/down; static_assert witness and switch/enum/name-table agreement')
+TECHNIQUE = ('affine abstract interpretation (words over R, R^T with R^T R = I) of transform_up/down and rotate_up/down; polynomial-domain interpretation (exact, rational coefficients) of the quadric translators/transformer compared with f(x - t) / f(R^T (x - t)); constructor/accessor contradiction rule for surfaces rebuilt from accessors; static_assert witness and switch/enum/name-table agreement')
 
 UNITS = [
     "src/orange/OrangeParams.cc",
